@@ -320,10 +320,11 @@ func (w *Worker) apply(st *Stim) {
 		var b []byte
 		for _, r := range st.Reqs {
 			c.NSent++
-			ev := Event{Ev: "send", C: c.Name, I: c.NSent, K: r.K, Slots: r.Slots, Dups: r.Dups}
+			ev := Event{Ev: "send", C: c.Name, I: c.NSent, K: r.K, Dups: r.Dups}
 			for _, sn := range r.Slots {
 				w.Cl.TagOfName(sn)
-				ev.Nums = append(ev.Nums, w.Cl.SlotNum[sn])
+				ev.Slots = append(ev.Slots, CanonSlot(sn)) // "X~": the slot X through another hash tag
+				ev.Nums = append(ev.Nums, w.Cl.SlotNum[CanonSlot(sn)])
 			}
 			if st.Op == "send" {
 				rb := w.Cl.Concrete(c.Name, c.NSent, r)
